@@ -120,6 +120,8 @@ func runC09(p *core.Program, r *core.Report) {
 	r.Rule("C09.elem-assert", "a type assertion on an element of the collection's own enumeration names a type the enumerator yields", 10)
 	r.Rule("C09.sentinel", "the header of the order ring is not taken for an element: a method that compares the key of header.link_prev/link_next with a key it was given, or stores into that entry, has ruled the header (the empty collection) out first", 20)
 	r.Rule("C09.read-only", "look-ups (Contains*, Get, Size, IsEmpty) store into no field of the collection, of an entry, or into a bucket", 20)
+	r.Rule("C09.no-reentry", "every operation returns: no method of the linked collections calls, with its mutex held, a same-receiver method that acquires it again", 10)
+	noReentryRule(p, r, "C09.no-reentry", c09Types)
 	r.Rule("C09.sort", "Sort: collect, sort.Sort, clear, re-insert all at the tail", 12)
 	r.Rule("C09.key-domain", "operations of one collection agree on which keys exist: no lookup/removal rejects a key the insertion path stores", 1)
 	r.Rule("C09.ctor", "every constructor leaves the collection with at least one bucket, whatever initial capacity it is given (lookups take the hash modulo the table length)", 13)
@@ -205,7 +207,12 @@ func runC12(p *core.Program, r *core.Report) {
 	// its mutex held, a method of the same instance that takes it again (C10's re-entry rule on these
 	// four types; KeyArray/ToString/Sort go through the enumerator constructors)
 	r.Rule("C12.no-reentry", "no method of the plain maps and sets calls, with its mutex held, a same-receiver method that acquires it again: every operation returns", 4)
-	for _, n := range c12Types {
+	noReentryRule(p, r, "C12.no-reentry", c12Types)
+}
+
+// noReentryRule: C10's re-entry rule on the given hash collections.
+func noReentryRule(p *core.Program, r *core.Report, rule string, typeNames []string) {
+	for _, n := range typeNames {
 		t := hmapNamed(p, n)
 		if t == nil {
 			continue
@@ -224,12 +231,12 @@ func runC12(p *core.Program, r *core.Report) {
 					for i, sname := range path {
 						short[i] = locks.ShortName(sname)
 					}
-					r.Viol("C12.no-reentry", "util/hmap."+n+"."+fl.FI.Obj.Name()+" -> "+cs.Callee.Name(), p.Pos(cs.Pos), "called with the mutex held, and "+strings.Join(short, " -> ")+" locks the same non-reentrant mutex: the call never returns")
+					r.Viol(rule, "util/hmap."+n+"."+fl.FI.Obj.Name()+" -> "+cs.Callee.Name(), p.Pos(cs.Pos), "called with the mutex held, and "+strings.Join(short, " -> ")+" locks the same non-reentrant mutex: the call never returns")
 				}
 			}
 		}
 		if bad == 0 {
-			r.OK("C12.no-reentry", "util/hmap."+n, "-", "no call made with the mutex held reaches Lock() of that mutex")
+			r.OK(rule, "util/hmap."+n, "-", "no call made with the mutex held reaches Lock() of that mutex")
 		}
 	}
 }
